@@ -6,6 +6,9 @@ claimed = {
  "C01": dict(ref="DESIGN.md §4 C01",
    text="Bounded symbolic execution of the real vhostTrie (Insert/Match/matchHost/matchPath/splitHostPath incl. strings.Split/Join/ToLower, net.SplitHostPort from their SSA): for 1..2 sites (3 thorough) over host patterns {a,b,*}-labels / catch-all spellings x path prefixes, and every request host (any case, optional port) / path within the bound, Match returns a site acceptable to a declarative statement-level spec; and two tries built in different declaration orders agree. Every path ends in an SMT query; counterexamples are replayed natively.",
    note="Bounds: sites <= 2 (quick) / 3 (thorough); labels are one byte from {a,b,*} (request {a,b,A}); site path '/' + <= 1 byte, request path '/' + <= 2 bytes from {a,b,/}; duplicate site keys excluded (documented precondition). The server entry point (serveHTTP, 404/421) is not yet covered by this check. Trusted: go/ssa, engine semantics (validated by native replay of sampled witnesses), z3."),
+ "C03": dict(ref="DESIGN.md §4 C03",
+   text="Bounded symbolic execution of the real rule matcher and gates: (a) for every request path '/'+<=4 bytes (5 thorough) over {/ . a A \\ %} and every rule base '/'+<=2 bytes (3 thorough), if path.Clean('/'+p) -- what http.Dir opens -- lies under the cleaned base then Path.Matches(base) holds (both Clean calls are the real std code); (b) BasicAuth.ServeHTTP with resource/exclude rules, credentials absent/wrong/right, GET/OPTIONS: the next handler never runs without credentials for a path resolving under the resource and outside its excludes, refusal is 401 with no body, with credentials the request is passed on unchanged; (c) Internal.ServeHTTP never passes an internal path on.",
+   note="Bounds as stated; CaseSensitivePath symbolic. The composition with path-rewriting directives in front of the gate (rewrite, tryfiles, ext) and content handlers behind it is not yet covered by this check."),
  "C05": dict(ref="DESIGN.md §4 C05",
    text="Bounded symbolic execution of every load-balancing policy's real Select (Random, LeastConn, RoundRobin, IPHash, URIHash, First, Header), hostByHashing, UpstreamHost.Down/Full/Available and the CheckDown closure built by staticUpstream.NewHost: pool sizes 1..5 (8 thorough) with fully symbolic per-backend state (Unhealthy, Fails, Conns, MaxConns, MaxFails), symbolic keys / 32-bit cursor / rand value; asserts result!=nil iff an available backend exists, result available and in pool, first=earliest, least_conn minimal, round_robin next-in-cyclic-order and even, hash policies stable.",
    note="Bounds: pool <= 5 (8 thorough); real FNV-1a hash only for keys <= 2 bytes and pools <= 3, larger pools with the hash summarised as a free 32-bit value (superset; native replay searches a key with the same residue); rand.Int() is an arbitrary non-negative int. The retry loop of Proxy.ServeHTTP (try_duration/fail_timeout) is not covered yet."),
@@ -16,13 +19,13 @@ claimed = {
    text="Bounded symbolic execution of the peer-facing parsers on arbitrary bytes: parseRawClientHello on every input of 0..52 bytes (62 thorough) with all bytes symbolic; the browser heuristics (looksLikeFirefox/Chrome/Edge/Safari/Tor, heartbeat) on arbitrary extension/curve/cipher lists; getVersion; clientHelloConn.Read for every split point of a record into reads (recorded info equals parse of the whole, bytes passed on unchanged); parseLinkHeader on every string <= 6 bytes over {<>;,=a space} and <= 3 arbitrary bytes. Any panic escaping is a violation; counterexamples are replayed natively.",
    note="Bounds as stated; hello bodies of 42..43 bytes in the segmentation harness with one cut (two cuts thorough). fastcgi records, replacer and basicauth header parsing are not covered yet by this check."),
  "C17": dict(ref="DESIGN.md §4 C17",
-   text="Bounded symbolic execution of the real limits code over go/ssa: every path of one Read step from an arbitrary reader state (remaining limit any int64>=0, buffer 0..4 bytes, underlying reader returning any count/error) ends in an SMT query pc∧¬assertion that is unsat; counterexamples are replayed natively.",
-   note="Bounds: buffer length <= 4 bytes, one or two Read calls; limit value fully symbolic (64-bit). Trusted: go/ssa construction, the engine's instruction semantics (validated per run by native replay of sampled path witnesses), z3."),
+   text="Bounded symbolic execution of the real limits / listener code over go/ssa: one maxBytesReader.Read step from an arbitrary reader state (remaining limit any int64>=0, buffer 0..4 bytes, underlying reader returning any count/error); whole bodies 0..5 bytes against limits 0..3 and 2^63-1 under every chunking and buffer size; scope selection of Limit.ServeHTTP over <=3 nested path scopes (longest matching scope wins); parseSize exactness for 1..3 and 10..11 digit numbers x every unit (64-bit overflow); strictest-of listener timeouts and header limit over <=2 (3 thorough) / <=4 sites with fully symbolic 64-bit values.",
+   note="Bounds as stated. The proxy's mapping of the too-large error to 413 is not covered yet. Trusted: go/ssa construction, the engine's instruction semantics (validated per run by native replay of sampled path witnesses), z3 / cvc5."),
 }
 not_applicable = {
  "C07": "Not decidable by symbolic execution of casket's code: the observable is the fate of real connections on kernel sockets while descriptors are duplicated and net/http drains; a verdict would be about a hand-written model of the kernel and net/http, not about this code (DESIGN.md §4 C07).",
 }
-pending = ["C02","C03","C04","C06","C08","C09","C10","C11","C12","C14","C15","C16","C18","C20"]
+pending = ["C02","C04","C06","C08","C09","C10","C11","C12","C14","C15","C16","C18","C20"]
 checks = []
 for pid, c in sorted(claimed.items()):
     checks.append({
